@@ -935,3 +935,8 @@ package app
 //@   flags nosweep
 //@   assert_at return#* C20.par_err_reported [C20]: err != nil ==> result1 != nil
 //@   assert_at return#* C20.par_err_nil_map [C20]: result1 != nil ==> result0 == nil
+// Run starts the background loops and the state machine only after connectDCS and newDBCluster succeeded
+//@ func (*app.App).Run
+//@   flags nosweep
+//@   requires core [inv]: app != nil && appCoreOK(app)
+//@   assert_at healthChecker#1 C20.loops_start_initialised [C20]: appOK(app)
